@@ -18,7 +18,7 @@ env_t* env_create(uint64_t N, int native) {
   set_dispatch(native);
   const uint32_t m = (uint32_t)e->m;
   e->fft64 = new_module_info(N, FFT64);
-  if (native) e->ntt120 = new_module_info(N, NTT120);  // NTT120 has no generic-C implementation
+  if (native == DISP_NATIVE || native == DISP_AVX2_ONLY) e->ntt120 = new_module_info(N, NTT120);  // NTT120 exists only behind the avx2 gate
   e->reim_fft = new_reim_fft_precomp(m, 0);
   e->reim_ifft = new_reim_ifft_precomp(m, 0);
   e->reim_mul = new_reim_fftvec_mul_precomp(m);
